@@ -135,6 +135,12 @@ func wrapClassRule(p *Prog, r *Report, rule string, o wrapOpts) int {
 	tolerated := map[string][]string{}
 	for k, v := range o.Tolerated {
 		tolerated[k] = v
+		// (the same method with a value instead of a pointer receiver, or the reverse)
+		if alt := toggleRecvStar(k); alt != k {
+			if _, own := o.Tolerated[alt]; !own {
+				tolerated[alt] = v
+			}
+		}
 	}
 	// a tolerance written for the per-file step of the cleaner holds for the whole package: the step may be
 	// merged into the loop that calls it (nothing else in that package looks contents up)
